@@ -53,13 +53,24 @@ async fn run_scenario(sc: Value, agent: String, acceptor: tokio_rustls::TlsAccep
         out.push(v);
     };
     emit(&mut out, json!({"ev": "reset", "instance": inst, "meta": sc["meta"].clone()}));
+    let mut prev_start = eph.clone();
     for (k, run) in sc["runs"].as_array().into_iter().flatten().enumerate() {
+        // a twin run starts from the state the previous run started from and differs from it only
+        // in how the router serialises its replies
+        let twin = run["twin"].as_bool().unwrap_or(false);
+        if twin {
+            eph = prev_start.clone();
+        }
+        prev_start = eph.clone();
+        let flags: Vec<String> = run["style"].as_array().map(|a| a.iter().filter_map(|x| x.as_str().map(String::from)).collect()).unwrap_or_default();
+        let style = if run["style"].is_array() { Some(vh::xmlgen::Style::from_flags(&flags)) } else { None };
         let irr_mode = run["irr_mode"].as_str().unwrap_or("ok");
         let irrd = start_irrd(IrrDb::from_json(&run["irr"]), irr_mode);
-        let junos = start_junos(run["running"].clone(), eph.clone(), faults_of(&run["faults"]), acceptor.clone(), case.clone()).await;
+        let junos = start_junos(run["running"].clone(), eph.clone(), faults_of(&run["faults"]), acceptor.clone(), case.clone(), style).await;
         emit(&mut out, json!({"ev": "run_start", "run": k + 1, "running": run["running"], "eph": eph_to_json(&eph),
                               "den": den_map(eph_filters(&eph)), "repeat": run["repeat"].as_bool().unwrap_or(false),
-                              "expect": run["expect"], "irr_mode": irr_mode, "faults": run["faults"]}));
+                              "expect": run["expect"], "irr_mode": irr_mode, "faults": run["faults"],
+                              "twin": twin, "style": flags.join("+")}));
         let mut cmd = tokio::process::Command::new(&agent);
         cmd.args(["-f", "0", "--irrd-host", "127.0.0.1", "--irrd-port", &irrd.addr.port().to_string(), "--ephemeral-db", &inst,
                   "remote", "--netconf-host", "127.0.0.1", "--netconf-port", &junos.addr.port().to_string(),
@@ -91,9 +102,15 @@ async fn run_scenario(sc: Value, agent: String, acceptor: tokio_rustls::TlsAccep
         }
         let queries: Vec<Value> = irrd.log.lock().unwrap().iter().map(|(c, q)| json!([c, q])).collect();
         emit(&mut out, json!({"ev": "irr_log", "run": k + 1, "queries": queries}));
+        if let Ok(dir) = std::env::var("VERIF_KEEP_STDERR") {
+            let _ = std::fs::write(format!("{dir}/{case}-run{}.stderr", k + 1), &stderr);
+        }
         let panicked = stderr.contains("panicked");
         emit(&mut out, json!({"ev": "exit", "run": k + 1, "code": code, "timed_out": timed_out, "panicked": panicked,
                               "wall_ms": started.elapsed().as_millis() as u64,
+                              "panic_at": stderr.lines().find(|l| l.contains("panicked at")).map(|l| l.chars().filter(|c| !c.is_control()).take(200).collect::<String>()).unwrap_or_default(),
+                              "stderr_error": stderr.lines().filter(|l| l.contains("Error") || l.contains("ERROR") || l.contains("panicked"))
+                                  .take(2).collect::<Vec<_>>().join(" | ").chars().filter(|c| !c.is_control()).take(500).collect::<String>(),
                               "stderr_tail": stderr.lines().rev().take(3).collect::<Vec<_>>().join(" | ").chars().take(400).collect::<String>()}));
         eph = new_eph;
         emit(&mut out, json!({"ev": "run_end", "run": k + 1, "eph": eph_to_json(&eph), "den": den_map(eph_filters(&eph))}));
